@@ -281,27 +281,62 @@ def crash_kind(stderr, rc):
     return "exit%d" % rc
 
 
+def _run_watch(cmd, env, idle_timeout, total_timeout):
+    """runs cmd; kills it when it produced no new stdout for idle_timeout seconds (every harness flushes one line per
+    step) or after total_timeout. returns (rc, stdout, stderr, hung)"""
+    import selectors, tempfile
+    errf = tempfile.TemporaryFile()
+    p = subprocess.Popen(cmd, stdout=subprocess.PIPE, stderr=errf, env=env)
+    sel = selectors.DefaultSelector(); sel.register(p.stdout, selectors.EVENT_READ)
+    out = []; t0 = last = time.time(); hung = False
+    os.set_blocking(p.stdout.fileno(), False)
+    while True:
+        ev = sel.select(timeout=1.0)
+        now = time.time()
+        if ev:
+            chunk = p.stdout.read()
+            if chunk:
+                out.append(chunk); last = now
+            elif chunk == b"" and p.poll() is not None:
+                break
+        if p.poll() is not None and not ev:
+            rest = p.stdout.read()
+            if rest: out.append(rest)
+            break
+        if now - last > idle_timeout or now - t0 > total_timeout:
+            hung = True
+            p.kill(); p.wait()
+            try:
+                rest = p.stdout.read()
+                if rest: out.append(rest)
+            except Exception: pass
+            break
+    rc = p.wait()
+    errf.seek(0); e = errf.read().decode(errors="replace"); errf.close()
+    return (-9 if hung else rc), b"".join(out).decode(errors="replace"), e, hung
+
+
+MAX_FAILED_CASES = 6   # after this many crashed / hung cases the rest of the batch is not run (marked SKIPPED)
+
+
 def run_impl(binary, cases, tmpdir, timeout_case=20, extra_args=None, env_extra=None):
     """Runs the harness over all cases with crash/hang recovery.
-    returns dict name -> list of obs lines; crashed cases end with a line 'CRASH <kind>' / 'HANG'."""
+    returns dict name -> list of obs lines; crashed cases end with a line 'CRASH <kind>' / 'HANG'.
+    A hang is 'no output for timeout_case seconds'. After MAX_FAILED_CASES failures the remaining cases get ['SKIPPED']."""
     env = dict(os.environ); env.update(SAN_ENV)
     if env_extra: env.update(env_extra)
     res, diag = {}, {}
     todo = list(cases)
     rnd = 0
+    failed = 0
     while todo:
         rnd += 1
+        if failed >= MAX_FAILED_CASES:
+            for c in todo: res[c.name] = ["SKIPPED"]
+            break
         path = os.path.join(tmpdir, "impl_in_%d_%d.txt" % (os.getpid(), rnd))
         write_cases(todo, path)
-        to = max(30, timeout_case * min(len(todo), 50))
-        try:
-            p = subprocess.run([binary, path] + (extra_args or []), stdout=subprocess.PIPE, stderr=subprocess.PIPE,
-                               timeout=to, env=env)
-            rc, o, e = p.returncode, p.stdout.decode(errors="replace"), p.stderr.decode(errors="replace")
-            hung = False
-        except subprocess.TimeoutExpired as ex:
-            rc, o, e = -9, (ex.stdout or b"").decode(errors="replace"), (ex.stderr or b"").decode(errors="replace")
-            hung = True
+        rc, o, e, hung = _run_watch([binary, path] + (extra_args or []), env, timeout_case, max(600, 2 * len(todo)))
         done, partial = parse_obs(o)
         res.update(done)
         names = [c.name for c in todo]
@@ -326,6 +361,7 @@ def run_impl(binary, cases, tmpdir, timeout_case=20, extra_args=None, env_extra=
         kind = "HANG" if hung else "CRASH " + crash_kind(e, rc)
         res[bad] = list(lines) + [kind]
         diag[bad] = e[-3000:]
+        failed += 1
         idx = names.index(bad)
         todo = todo[idx + 1:]
         try: os.remove(path)
@@ -342,12 +378,13 @@ def write_obs(obs, names, path):
             f.write("END\n")
 
 
-def ddmin(ops, fails, budget=120):
-    """greedy delta-debugging over a list of ops; fails(ops)->bool"""
+def ddmin(ops, fails, budget=120, seconds=90):
+    """greedy delta-debugging over a list of ops; fails(ops)->bool; bounded by calls and wall-clock"""
     cur = list(ops)
     n = 2
     calls = 0
-    while len(cur) >= 2 and calls < budget:
+    t0 = time.time()
+    while len(cur) >= 2 and calls < budget and time.time() - t0 < seconds:
         chunk = max(1, len(cur) // n)
         reduced = False
         for i in range(0, len(cur), chunk):
@@ -356,7 +393,7 @@ def ddmin(ops, fails, budget=120):
             if cand and fails(cand):
                 cur = cand; n = max(n - 1, 2); reduced = True
                 break
-            if calls >= budget: break
+            if calls >= budget or time.time() - t0 >= seconds: break
         if not reduced:
             if chunk == 1: break
             n = min(len(cur), n * 2)
